@@ -1910,9 +1910,10 @@ let gen_tables =
     O))))))) :: ((S (S (S (S (S (S (S (S O)))))))) :: ((S (S (S (S (S (S (S
     (S (S O))))))))) :: [])))))))))))))))))))))))))))))))))))))))); tb_cond =
     (O :: (O :: (O :: (O :: (O :: (O :: (O :: (O :: (O :: (O :: (O :: ((S
-    O) :: (O :: (O :: (O :: (O :: ((S O) :: ((S O) :: (O :: ((S
-    O) :: (O :: (O :: ((S (S O)) :: (O :: (O :: (O :: (O :: (O :: ((S (S (S
-    (S (S (S (S (S O)))))))) :: (O :: (O :: (O :: (O :: ((S (S (S
+    O) :: (O :: (O :: (O :: (O :: ((S O) :: ((S
+    O) :: (O :: (O :: (O :: (O :: ((S (S
+    O)) :: (O :: (O :: (O :: (O :: (O :: ((S (S (S (S (S (S (S (S
+    O)))))))) :: (O :: (O :: (O :: (O :: ((S (S (S
     O))) :: (O :: (O :: (O :: (O :: (O :: ((S (S (S (S (S (S (S (S (S
     O))))))))) :: (O :: (O :: (O :: (O :: ((S (S (S (S
     O)))) :: (O :: (O :: (O :: (O :: (O :: (O :: (O :: (O :: (O :: (O :: ((S
@@ -1924,14 +1925,15 @@ let gen_tables =
     O)))))))) :: (O :: (O :: (O :: ((S (S (S (S (S (S (S (S
     O)))))))) :: (O :: (O :: (O :: ((S (S (S (S (S (S (S (S O)))))))) :: ((S
     (S (S (S (S (S (S (S O)))))))) :: ((S (S (S (S (S (S (S (S
-    O)))))))) :: (O :: (O :: ((S O) :: (O :: ((S (S (S (S (S (S (S (S (S
+    O)))))))) :: (O :: (O :: (O :: (O :: ((S (S (S (S (S (S (S (S (S
     O))))))))) :: (O :: (O :: (O :: (O :: (O :: ((S (S (S (S (S (S (S (S (S
     O))))))))) :: []))))))))))))))))))))))))))))))))))))))))))))))))))))))))))))))))))))))))))))))))))))))))))))))))))));
     tb_bool =
     (O :: (O :: (O :: (O :: (O :: (O :: (O :: (O :: (O :: (O :: (O :: ((S
-    O) :: (O :: (O :: (O :: (O :: ((S O) :: ((S O) :: (O :: ((S
-    O) :: (O :: (O :: ((S (S O)) :: (O :: (O :: (O :: (O :: (O :: ((S (S (S
-    (S (S (S (S (S O)))))))) :: (O :: (O :: (O :: (O :: ((S (S (S
+    O) :: (O :: (O :: (O :: (O :: ((S O) :: ((S
+    O) :: (O :: (O :: (O :: (O :: ((S (S
+    O)) :: (O :: (O :: (O :: (O :: (O :: ((S (S (S (S (S (S (S (S
+    O)))))))) :: (O :: (O :: (O :: (O :: ((S (S (S
     O))) :: (O :: (O :: (O :: (O :: (O :: ((S (S (S (S (S (S (S (S (S
     O))))))))) :: (O :: (O :: (O :: (O :: ((S (S (S (S
     O)))) :: (O :: (O :: (O :: (O :: (O :: (O :: (O :: (O :: (O :: (O :: ((S
@@ -1943,6 +1945,6 @@ let gen_tables =
     O)))))))) :: (O :: (O :: (O :: ((S (S (S (S (S (S (S (S
     O)))))))) :: (O :: (O :: (O :: ((S (S (S (S (S (S (S (S O)))))))) :: ((S
     (S (S (S (S (S (S (S O)))))))) :: ((S (S (S (S (S (S (S (S
-    O)))))))) :: (O :: (O :: ((S O) :: (O :: ((S (S (S (S (S (S (S (S (S
+    O)))))))) :: (O :: (O :: (O :: (O :: ((S (S (S (S (S (S (S (S (S
     O))))))))) :: (O :: (O :: (O :: (O :: (O :: ((S (S (S (S (S (S (S (S (S
     O))))))))) :: [])))))))))))))))))))))))))))))))))))))))))))))))))))))))))))))))))))))))))))))))))))))))))))))))))))) }
